@@ -58,32 +58,24 @@ COMPONENTS = {
     "stub": ["UI: hunks are chosen by index instead of by prompt (Shelver._select_hunks re-stated without prompts)", "BRZ_HOME (scratch)"],
 }
 GUARDS = {
-    # shelving the deletion of an executable file (or of a kind change back to an executable
-    # file) re-creates it without the exec bit (create_from_tree does not set executability):
-    # the tree then shows an exec change nobody made; shelving the addition of an executable
-    # file (or a kind change away from one) stores it without the bit: unshelve restores a
-    # non-executable file
-    "exec_lost": True,
     # unshelve (Merge3Merger._merge_executable) takes THIS tree's executability from the cached
     # inventory entry (iter_entries_by_dir), not from the file: after the shelving transform
     # re-created a file (rename + text shelved: entry recorded as not executable), or after a
     # chmod the dirstate has not observed, the flag is stale and unshelving a text change of an
     # executable file (or of a file whose exec bit was changed) sets the wrong exec bit
     "exec_stale": True,
-    # ShelfCreator.shelve_deletion looks for a surviving copy of the deleted entry BY PATH
-    # (work_tree.has_filename(basis path)): when that path is taken by another versioned entry
-    # (old entry removed or renamed-and-lost, a new entry added at its path) or, for an entry
-    # that is versioned but missing, by anything at all, it re-uses the trans id of the
-    # occupant: MalformedTransform('versioning no contents') after the shelf file was already
-    # written, or the deletion silently stays in the tree
-    "delete_at_reoccupied_path": True,
-    # a shelf that deletes an entry and adds a new entry (new file id) under the same parent
-    # and name: the preview tree of the shelf transform answers path2id(that path) with None
-    # (it finds the deleted entry's trans id), so unshelve raises NoSuchFile from
-    # Merge3Merger._entries3 -> find_previous_path
+    # a shelf that deletes an entry and adds a new entry (new file id) - or renames another
+    # entry - to the same parent and name: in the preview tree of the shelf transform the
+    # removed entry keeps its name and shadows the live one (_path2trans_id takes whichever
+    # child of that name comes first), path2id(that path) is None and unshelve raises
+    # NoSuchFile (Merge3Merger._entries3 / _get_filter_tree_path -> find_previous_path) or
+    # AssertionError('Unknown kind None') (_dump_conflicts -> create_from_tree)
     "add_at_deleted_name": True,
 }
-TERRITORY_ORDER = ["delete_at_reoccupied_path", "add_at_deleted_name", "exec_lost", "exec_stale"]
+# Former guards, repaired in /repo and explored freely since: exec_lost (d04b477: shelving keeps
+# the executable bit of files it re-creates), delete_at_reoccupied_path (cf7895f: shelving a
+# deletion adopts only an unversioned copy left at the old path).
+TERRITORY_ORDER = ["add_at_deleted_name", "exec_stale"]
 ASSUMPTIONS = [
     "bzr (2a) trees only: git working trees raise ShelvingUnsupported",
     "selections are consistent: the model reverts the selected changes and must obtain a tree, and the selected changes applied to the basis must give a tree as well (the shelf is stored as a transform of the basis; e.g. the addition of a new entry at a path whose old occupant's removal is not shelved comes back as 'e.moved') (every entry below a versioned directory, no two entries on one path, nothing unversioned left inside a directory that goes away); selections that do not give a tree are not generated (breezy refuses them with MalformedTransform or resolves them by conflict heuristics; the property does not say which)",
@@ -95,7 +87,7 @@ ASSUMPTIONS = [
     "hunk prediction: texts are 4 regions separated by 8 unique separator lines, so every changed region is exactly one diff hunk (asserted at run time); hunks are selected through breezy.diff/patches exactly as Shelver._select_hunks does, the expected text is composed from the regions without any diff code",
     "ShelfManager.new_shelf writes through local_abspath + open(), outside the transport seam: no fault is injected into the shelf write itself; the os-level fault hits one call of work_transform.apply() only; oracle there: tree content/versioning unchanged (limbo residue is C13's subject) and the shelf that was written before either is absent or can be read back by get_unshelver",
     "states that hit defects already reported for C09 (treesim.GUARDS) are not generated; if the tree disagrees with the treesim model before the first shelve the run is abandoned (that is C09's finding, probe prestate_mismatch)",
-    "states that hit C15 defects already reported (C15.GUARDS: " + ", ".join(sorted(GUARDS)) + ") are left out while the guard is on; a guard is lifted in a share of the runs once known_findings.json has an open entry ['C15', 'known-defect', guard] (or with VERIF_UNGUARDED=p), and failures inside that territory carry that signature",
+    "states that hit C15 defects that are reported and still open (C15.GUARDS: " + ", ".join(sorted(GUARDS)) + ") are left out while the guard is on; a guard is lifted in a share of the runs once known_findings.json has an open entry ['C15', 'known-defect', guard] (or with VERIF_UNGUARDED=p), and failures inside that territory carry that signature; two former guards were repaired in /repo (exec_lost: d04b477, delete_at_reoccupied_path: cf7895f): executable files in added / deleted / kind-changed entries and deletions whose old path is taken by another entry are generated freely and judged by the ordinary oracles",
     "runs execute in-process (ISOLATION=thread): each run builds tree, model and Sim from scratch",
 ]
 STEP_CAP = 200000
@@ -310,20 +302,14 @@ def shelve_model(m, sel, hunks, guards):
     if "add_at_deleted_name" in guards:
         gone = {(m.basis[T.parent(bids[f])][0], _name(bids[f])) for t, f in sel if t == "delete"}
         for t, f in sel:
-            if t == "add" and (m.inv[T.parent(wids[f])][0], _name(wids[f])) in gone:
-                raise Unmodelled("new entry at the place of a deleted one", "add_at_deleted_name")
-
-    def exec_guard(lost):
-        if lost and "exec_lost" in guards:
-            raise Unmodelled("exec bit", "exec_lost")
+            if t in ("add", "rename") and (m.inv[T.parent(wids[f])][0], _name(wids[f])) in gone:
+                raise Unmodelled("entry added or renamed to the place of a deleted one", "add_at_deleted_name")
 
     for typ, fid in sorted(sel):
         if typ == "add":
             n = byid[fid]
             if n["kind"] is None:
                 raise Unmodelled("added entry that is missing on disk (shelved as an empty file)")
-            if n["kind"] == FILE:
-                exec_guard(n["exec"])
             n["ver"] = False
             n["delete"] = True
             continue
@@ -331,13 +317,10 @@ def shelve_model(m, sel, hunks, guards):
         _f, bkind, bdata, bexec = m.basis[bp]
         bpar = m.basis[T.parent(bp)][0]
         if typ == "delete":
-            if ((bp in m.inv and m.inv[bp][0] != fid) or (fid in wids and bp in m.disk)) and "delete_at_reoccupied_path" in guards:
-                raise Unmodelled("basis path of the deleted entry is taken", "delete_at_reoccupied_path")
             if fid in wids:
                 n = byid[fid]  # versioned, missing on disk
                 n["kind"], n["data"], n["exec"] = bkind, bdata, bool(bexec)
                 n.pop("ghost", None)
-                exec_guard(bexec)
             elif bp in m.disk and bp not in m.inv:
                 n = nodes[bp]
                 if (n["kind"], n["data"], bool(n["exec"])) != (bkind, bdata, bool(bexec)) or n["kids"]:
@@ -347,7 +330,6 @@ def shelve_model(m, sel, hunks, guards):
                 byid[fid] = n
             else:
                 n = _node(bkind, bdata, bool(bexec))
-                exec_guard(bexec)
                 n["ver"], n["fid"] = True, fid
                 n["new"] = True
                 byid[fid] = n
@@ -357,10 +339,6 @@ def shelve_model(m, sel, hunks, guards):
         elif typ in ("kind", "target"):
             n = byid[fid]
             if typ == "kind":
-                if n["kind"] == FILE:
-                    exec_guard(n["exec"])
-                if bkind == FILE:
-                    exec_guard(bexec)
                 if n["kind"] == DIR and n["kids"]:
                     # the directory's contents would have to go somewhere
                     n["was_dir"] = True
